@@ -802,6 +802,11 @@ func (w *SrvWorld) laneEnabled(l *laneState) bool {
 					return false
 				}
 			}
+			// a stream the peer has reset keeps its concurrency slot until its handler returns (documented, C13):
+			// "everything before is finished" includes those handlers
+			if a.peerRST && w.Entries[a.idx] != w.Exits[a.idx] {
+				return false
+			}
 		}
 	}
 	if l.next == 0 && l.lane.After == -2 {
